@@ -116,6 +116,7 @@ func limitInbound(t *testing.T, h *H, lname string, max int64, disabled bool, ef
 	var mu sync.Mutex
 	delivered, deliveredLen := 0, 0
 	srvClosed := ""
+	observed := false
 	status := 0
 	upgradeFailed := false
 	var hsMax int64 = -1
@@ -129,7 +130,13 @@ func limitInbound(t *testing.T, h *H, lname string, max int64, disabled bool, ef
 					deliveredLen = len(p.Data)
 				}
 			}
-		}, func(r eio.Reason, err error) { mu.Lock(); srvClosed = string(r); mu.Unlock() })
+		}, func(r eio.Reason, err error) {
+			mu.Lock()
+			if !observed {
+				srvClosed = string(r)
+			}
+			mu.Unlock()
+		})
 		data := bytes.Repeat([]byte("x"), n-1) // text MESSAGE: type byte + data = n bytes on the wire
 		switch carriage {
 		case "polling-cl", "websocket", "websocket-upgraded":
@@ -146,7 +153,10 @@ func limitInbound(t *testing.T, h *H, lname string, max int64, disabled bool, ef
 				}
 			}
 			cli.Send(&eioparser.Packet{Type: eioparser.PacketTypeMessage, Data: data})
-			time.Sleep(5 * time.Second)
+			time.Sleep(15 * time.Second) // a WebSocket that refused a message reports its end only after the closing handshake (up to 5 s)
+			mu.Lock()
+			observed = true
+			mu.Unlock()
 			cli.Close()
 		case "polling-chunked":
 			hc := &http.Client{Transport: &http.Transport{DialContext: nw.Dial, DisableCompression: true}}
@@ -175,6 +185,9 @@ func limitInbound(t *testing.T, h *H, lname string, max int64, disabled bool, ef
 			hc.CloseIdleConnections()
 		}
 		time.Sleep(time.Second)
+		mu.Lock()
+		observed = true // what follows is the scenario's own tear-down
+		mu.Unlock()
 		srv.Close()
 		hs.Close()
 		nw.Close()
